@@ -72,6 +72,17 @@ CLAIMED = {
             "compared on the same path and discharged by z3.",
             "Bounds: encodings unbounded (mirex 2 symbolic bits/label), root strings <=4/5 chars, <=2+2 chord intervals, 8x8 key pairs quick / all 49x49 thorough, "
             "<=2/3 frames, notes <=1x2 / 2x2; scaling keeps 20..5000 Hz; encode_many stubbed to the invariant for the rule lattice.", "5 (C09)"),
+    "C16": ("pairwise/rand_index/ari/mutual_information/nce/vmeasure run end to end on symbolic boundaries; per path (region of boundary space) z3 "
+            "proves every frame carries the label of the interval containing k*frame_size, then the returned numbers are compared with independent "
+            "textbook formulas (exact fractions + math.log) on the contingency table, plus the identities vmeasure==nce(marginal), MI symmetry, "
+            "V harmonic mean, ARI=1 for coinciding partitions.",
+            "Bounds: <=2+2 segments / <=4 frames quick, <=3+3 / <=8 frames thorough; frame sizes 0.5/0.25/0.1; beta symbolic on one configuration; 1e-5 s "
+            "boundary lattice. NMI/AMI not asserted where the textbook value is 0/0. After the frame obligation the indices are concrete per path.", "5 (C16)"),
+    "C17": ("Fully symbolic kernels (_compare_frame_rankings, _count_inversions on integer vectors; _gauc on symbolic LCA matrices) against the double-sum / "
+            "mean-over-queries definitions, and tmeasure/lmeasure end to end on symbolic boundaries against a brute-force triple count over the definitional "
+            "frame->segment map; range [0,1]; frame_size<=0 or >window rejected for all symbolic values.",
+            "Bounds: vectors n<=3 (levels 0..2) quick / n<=4 (0..3) thorough; _gauc <=3/4 frames; end to end 2 levels x <=2(3) segments, <=4 frames; exact-arithmetic "
+            "_round (float truncation gap outside the claim); scipy.sparse dense stand-in.", "5 (C17)"),
 }
 
 NA_REASON = "check not built yet in this revision (planned; see DESIGN.md section 5)"
